@@ -85,7 +85,7 @@ MUTANTS[-1]["edits"] = [dict(file="pkg/inflector/internal/rule.go", old=MUTANTS[
                         dict(file="pkg/inflector/internal/rule.go", old="	cache sync.Map\n", new="	cache sync.Map\n	plain map[string]string\n")]
 M("C20-cache-lowercased", ["C20"], "pkg/inflector/internal/rule.go",
   "r.cache.LoadOrStore(s, sync.OnceValue", "r.cache.LoadOrStore(strings.ToLower(s), sync.OnceValue", "cache keyed by the lower-cased input")
-M("C20-drop-boundary", ["C20"], "pkg/inflector/internal/rule.go", '`(?i)(.*)\\b((?:%s))$`', '`(?i)(.*)((?:%s))$`', "irregular words match without a word boundary")
+M("C20-drop-boundary", ["C20"], "pkg/inflector/internal/rule.go", '`(?i)(.*)\\b((?:%s))$`', '`(?i)(.*)((?:%s))$`', "control: irregular words also match inside longer words; the statement only speaks about words preceded by a boundary, which still behave the same")
 M("C20-undo-prefix-fix", ["C20"], "pkg/inflector/internal/rule.go", "			buf.WriteString(word[0:1])", "			buf.WriteString(s[0:1])", "reverts: first byte of the whole input reused")
 M("C20-undo-guard", ["C20"], "pkg/inflector/internal/rule.go",
   "		if replacement, ok := r.irregularMap[strings.ToLower(word)]; ok {", "		if replacement := r.irregularMap[strings.ToLower(word)]; true {", "reverts the guarded lookup (panic on fold aliases)")
@@ -205,11 +205,11 @@ M("C02-alias-error-ignored", ["C02"], "pkg/gengo/context.go",
   "		if errors.Is(err, ErrIgnore) {\n			l.Warn(err)\n			return nil\n		}\n		return err", "		if errors.Is(err, ErrIgnore) {\n			l.Warn(err)\n			return nil\n		}\n		return nil", "errors of GenerateAliasType are ignored")
 
 # ---------------------------------------------------------------- C04
-M("C04-unsorted-types", ["C04"], "pkg/gengo/context.go", "	sort.Strings(names)\n\n	for _, n := range names {\n		tpe := pkgTypes[n].Type()", "	for _, n := range names {\n		tpe := pkgTypes[n].Type()", "types are visited in map order")
+M("C04-unsorted-types", ["C04"], "pkg/gengo/context.go", "	sort.Strings(names)\n\n	for _, n := range names {\n		tpe := pkgTypes[n].Type()", "	_ = sort.Strings\n\n	for _, n := range names {\n		tpe := pkgTypes[n].Type()", "types are visited in map order")
 M("C04-unsorted-localpkgs", ["C04", "C08"], "pkg/types/load.go",
   "		for _, pkgPath := range slices.Sorted(maps.Keys(v.localPkgPaths)) {\n			if !yield(pkgPath, v.localPkgPaths[pkgPath]) {",
-  "		for pkgPath := range v.localPkgPaths {\n			if !yield(pkgPath, v.localPkgPaths[pkgPath]) {", "packages are visited in map order")
-M("C04-unsorted-map-literal", ["C04", "C10"], "pkg/gengo/internal/dumper.go", "		sort.Strings(keyLits)\n", "", "map literal keys in map order")
+  "		for _, pkgPath := range slices.Collect(maps.Keys(v.localPkgPaths)) {\n			if !yield(pkgPath, v.localPkgPaths[pkgPath]) {", "packages are visited in map order")
+M("C04-unsorted-map-literal", ["C04", "C10"], "pkg/gengo/internal/dumper.go", "		sort.Strings(keyLits)\n", "		_ = sort.Strings\n", "map literal keys in map order")
 M("C04-gfs-order", ["C04"], "pkg/gengo/context.go",
   "		delete(generatedFiles, gfile.Filename(c.args))", "		delete(generatedFiles, gfile.Filename(c.args))\n		if len(generatedFiles) > 0 {\n			break\n		}",
   "after the first written file, remaining generators' files are skipped while stale files exist (order = sync.Map range order)")
@@ -220,7 +220,7 @@ M("C04-entry-order-dependence", ["C04"], "pkg/types/load.go",
 
 # ---------------------------------------------------------------- C05
 M("C05-prototype-reused", ["C05"], "pkg/gengo/context.go",
-  "	return reflect.New(reflectx.Indirect(reflect.ValueOf(generator)).Type()).Interface().(Generator)", "	return generator", "generators without New are shared across packages")
+  "	return reflect.New(reflectx.Indirect(reflect.ValueOf(generator)).Type()).Interface().(Generator)", "	_, _ = reflect.New, reflectx.Indirect\n	return generator", "generators without New are shared across packages")
 M("C05-shared-tracker", ["C05"], "pkg/gengo/genfile.go",
   "		imports: namer.NewDefaultImportTracker(),", "		imports: sharedTracker,", "one import tracker for the whole process")
 MUTANTS[-1]["edits"] = [dict(file="pkg/gengo/genfile.go", old=MUTANTS[-1]["old"], new=MUTANTS[-1]["new"]),
